@@ -3,6 +3,7 @@ import SafeC.Proofs.NormRoom
 import SafeC.Proofs.NormCompose
 import SafeC.Proofs.NormNFC2
 import SafeC.Proofs.NormIdemTables
+import SafeC.Proofs.NormNFCRoom
 import SafeC.Proofs.FoldCount
 /-!
 # C17 — "Unicode normalization and case folding follow the Unicode standard"
@@ -280,6 +281,27 @@ theorem nfc_twice (dmax dmax' : Nat) (src : List Nat) (h0 : ∀ c ∈ src, c ≠
 example : (wcsnormS current 1 16 [0x73, 0x307, 0x323, 0x1100, 0x1161]).ret = 0 ∧
     (wcsnormS current 1 16 [0x73, 0x307, 0x323, 0x1100, 0x1161]).out = [0x1E69, 0xAC00] ∧
     (wcsnormS current 1 8 [0x1E69, 0xAC00]).ret = 0 := by decide +kernel
+
+/-- sufficient room for NFC: `dmax ≤ RSIZE_MAX_WSTR` and five cells more than the NFD text ⇒ EOK (then `nfc_model` gives dest and
+`*lenp`).  "The result and its terminator fit ⇒ EOK" is false: `nfc_exact_fit_witness` -/
+theorem nfc_succeeds_partial (fx : Fixes) (dmax : Nat) (src : List Nat) (hs : ∀ c ∈ src, c ≠ 0 ∧ c ≤ UniCompos.unicodeMax)
+    (hmax : dmax ≤ RSIZE_MAX_WSTR) (hroom : (nfdPure src).length + 5 ≤ dmax) : (wcsnormS fx 1 dmax src).ret = 0 :=
+  wcsnormS_nfc_succeeds fx dmax src hs hmax hroom
+
+theorem nfc_exact_fit_witness : (wcsnormS current 1 6 [0x41, 0x42, 0x43]).ret = ESNOSPC ∧
+    (wcsnormS current 1 7 [0x41, 0x42, 0x43]).ret = 0 ∧ nfcPure current [0x41, 0x42, 0x43] = [0x41, 0x42, 0x43] := by decide +kernel
+
+/-- with that room both calls succeed, and the second changes nothing: the hypotheses of `nfc_twice` are met by every string of
+non-zero code points and every pair of destinations with five cells more than the NFD text (the second call needs no more room
+than the first: NFD (NFC x) = NFD x) -/
+theorem nfc_twice_succeeds_partial (dmax dmax' : Nat) (src : List Nat) (hs : ∀ c ∈ src, c ≠ 0 ∧ c ≤ UniCompos.unicodeMax)
+    (hmax : dmax ≤ RSIZE_MAX_WSTR) (hroom : (nfdPure src).length + 5 ≤ dmax)
+    (hmax' : dmax' ≤ RSIZE_MAX_WSTR) (hroom' : (nfdPure src).length + 5 ≤ dmax') :
+    (wcsnormS current 1 dmax src).ret = 0 ∧ (wcsnormS current 1 dmax' (wcsnormS current 1 dmax src).out).ret = 0 ∧
+    (wcsnormS current 1 dmax' (wcsnormS current 1 dmax src).out).out = (wcsnormS current 1 dmax src).out :=
+  wcsnormS_nfc_twice_ok dmax dmax' src hs hmax hroom hmax' hroom'
+
+example : (nfdPure [0x1E69, 0xAC01]).length + 5 ≤ 11 ∧ (wcsnormS current 1 11 [0x1E69, 0xAC01]).out = [0x1E69, 0xAC01] := by decide +kernel
 
 /-- the reference itself: UAX #15 NFC over UCD 14.0 is idempotent and NFD (NFC x) = NFD x, every list of cells -/
 theorem uax15_nfc_idempotent (xs : List Nat) : UAX15.nfc (UAX15.nfc xs) = UAX15.nfc xs ∧ UAX15.nfd (UAX15.nfc xs) = UAX15.nfd xs :=
